@@ -157,8 +157,11 @@ class Ctx:
 def _assert_tree():
     import py_gql
     f = os.path.realpath(py_gql.__file__)
-    if not f.startswith("/repo/src/"):
-        raise HarnessError("py_gql imported from %s, not from /repo/src" % f)
+    # VERIF_PYGQL_SRC: experiments against a scratch copy carrying a seeded change (tools/seed_bg.sh); never set by
+    # the registered commands, whose subject is /repo's working tree
+    want = os.path.realpath(os.environ.get("VERIF_PYGQL_SRC") or "/repo/src")
+    if not f.startswith(want + "/"):
+        raise HarnessError("py_gql imported from %s, not from %s" % (f, want))
 
 
 def _short_tb():
